@@ -174,6 +174,7 @@ class Task(NamedUIDObject):
             if dynamic:
                 self.append_z3_assertion(resource_busy_end <= self._end)
                 self.append_z3_assertion(resource_busy_start >= self._start)
+                self.append_z3_assertion(resource_busy_start <= resource_busy_end)
             else:
                 if early_out > 0:
                     self.append_z3_assertion(resource_busy_end == self._end - early_out)
